@@ -320,7 +320,7 @@ pub fn run(cfg: &Cfg, rep: &mut Rep) {
         }
     }
     let mut r = Rng::new(cfg.seed, 0x1700 + sh as u64);
-    let nrand = cfg.budget(320_000);
+    let nrand = cfg.budget(2_500_000);
     for k in 0..nrand {
         let si = r.below(9) as usize;
         let s = SCALES[si];
